@@ -418,6 +418,8 @@ def _run_schedule(env: core.Env, name: str, plan: list[tuple[int, int]]) -> tupl
         if sched.blocked_events:
             env.count("schedules_with_thread_blocked_on_connect_lock")
         env.count("cmp_no_exception")
+        if any(isinstance(e, Deadlock) for e in sched.errors):
+            raise core.Inconclusive(f"scheduler watchdog inside a session thread: {[str(e) for e in sched.errors if e]} plan={plan}")
         for i, e in enumerate(sched.errors):
             if e is not None:
                 kind = "assertion" if isinstance(e, AssertionError) else core.exc_kind(e)
